@@ -199,6 +199,13 @@ def weights (g : SGraph) : State :=
     fuel of `iterate` is generous but its sufficiency is not proved) -/
 def isFixpoint (g : SGraph) (st : State) : Bool := stepState (g.length + 2) g st == st
 
+/-- every referenced node exists (hypothesis of the completeness theorems; `sgraph` adds the missing
+    ones, and the driver evaluates this on every input) -/
+def closedB (g : SGraph) : Bool :=
+  g.all (fun nd => nd.edges.all (fun e => match e.dst with
+    | .node x => (g.map (·.name)).contains x
+    | _ => true))
+
 /-! ### well-foundedness -/
 def succsAll (g : SGraph) (n : String) (hopOk : Bool) : List String :=
   match g.find? (·.name == n) with
